@@ -14,7 +14,17 @@ def main():
     seed = int(os.environ.get('VERIF_SEED', '1'))
     mod = importlib.import_module('harness.props.' + a.pid.lower())
     if a.replay:
-        sys.exit(mod.replay(json.load(open(a.replay))))
+        doc = json.load(open(a.replay))
+        if hasattr(mod, 'replay'):
+            sys.exit(mod.replay(doc))
+        # generic replay: the case function named in the document (run_case by default) on the recorded case seed
+        from harness import core
+        core.worker_init(core.REPO, quiet=False)
+        r = getattr(mod, doc.get('case_fn', 'run_case'))(int(doc['seed']))
+        bad = r['violations'] + r['disagreements']
+        for v in bad:
+            print('REPLAY:', v.get('what'))
+        sys.exit(1 if bad else 0)
     sys.exit(mod.run(a.tier, seed))
 
 
